@@ -7,6 +7,7 @@ import (
 	"sort"
 	"strings"
 	"sync"
+	"sync/atomic"
 	"time"
 
 	"github.com/jimlambrt/gldap"
@@ -104,7 +105,7 @@ type c06Stream struct{}
 func (c06Stream) Name() string               { return "c06" }
 func (c06Stream) CaseTimeout() time.Duration { return 60 * time.Second }
 func (c06Stream) Rule() string {
-	return "K simultaneous connections (1..8; plain / TLS / StartTLS), each pipelining N requests (1..256) of a random mix of the six dispatched operations in one write, routed by per-operation routes, all by the default route, or by nothing at all (a server whose Router was never called: every request must be refused with its operation's response type); every handler blocks until ALL handlers of ALL connections have started (rendezvous), so the scenario only completes if no dispatch waits for an earlier handler; oracle: the rendezvous completes, and on every connection Request.ID is 1..N in arrival (message id) order and ConnectionID is constant; the hook trace of every connection is replayed through the Lean connection automaton; non-trivial = N >= 2, distinct by scenario"
+	return "K simultaneous connections (1..8; plain / TLS / StartTLS), each pipelining N requests (1..256) of a random mix of the six dispatched operations in one write, routed by per-operation routes, all by the default route, or by nothing at all (a server whose Router was never called: every request must be refused with its operation's response type); also: a server with a read timeout, a handler that outlives it and requests sent afterwards (whatever is served carries its arrival number); a route registered on the live mux while a handler blocks (requests sent afterwards must still be dispatched); every handler blocks until ALL handlers of ALL connections have started (rendezvous), so the scenario only completes if no dispatch waits for an earlier handler; oracle: the rendezvous completes, and on every connection Request.ID is 1..N in arrival (message id) order and ConnectionID is constant; the hook trace of every connection is replayed through the Lean connection automaton; non-trivial = N >= 2, distinct by scenario"
 }
 
 func (c06Stream) Generate(rng *rand.Rand, n int, thorough bool) []Case {
@@ -117,6 +118,17 @@ func (c06Stream) Generate(rng *rand.Rand, n int, thorough bool) []Case {
 			np = []int{65, 100, 129, 200, 255, 256}[rng.Intn(6)]
 			k = 1 + rng.Intn(2)
 		}
+		switch rng.Intn(12) {
+		case 0:
+			// a server with a read timeout, a handler that outlives it, and requests sent after it: whatever is served
+			// carries its arrival number
+			cs = append(cs, Case{Line: fmt.Sprintf("c06 conns=1 n=3 mode=plain seed=%d routes=all rt=%d", rng.Intn(1<<30), 250+rng.Intn(200)), Kind: "readtimeout"})
+			continue
+		case 1:
+			// a route is registered while a handler is blocked; requests sent afterwards must still be dispatched
+			cs = append(cs, Case{Line: fmt.Sprintf("c06 conns=2 n=2 mode=plain seed=%d routes=all latereg=1", rng.Intn(1<<30)), Kind: "latereg"})
+			continue
+		}
 		cs = append(cs, Case{Line: fmt.Sprintf("c06 conns=%d n=%d mode=%s seed=%d routes=%s", k, np, []string{"plain", "plain", "tls", "starttls"}[rng.Intn(4)], rng.Intn(1<<30),
 			[]string{"all", "all", "default", "none"}[rng.Intn(4)]), Kind: "pipeline"})
 	}
@@ -128,6 +140,12 @@ func (c06Stream) Impl(c Case) string {
 	k, n, mode := atoi(p["conns"]), atoi(p["n"]), p["mode"]
 	rng := rand.New(rand.NewSource(int64(atoi(p["seed"]))))
 	tlsConfigs()
+	if p["rt"] != "" {
+		return c06ReadTimeout(atoi(p["rt"]))
+	}
+	if p["latereg"] == "1" {
+		return c06LateRegistration()
+	}
 	rc := &recorder{}
 	var all sync.WaitGroup
 	all.Add(k * n)
@@ -228,6 +246,112 @@ func (c06Stream) Impl(c Case) string {
 	for _, cl := range clients {
 		cl.close()
 	}
+	sut.finish()
+	return verdict + "\t" + traceString(sut.tr.Snapshot(), "conn.", "loop.", "req.", "run.", "stop.")
+}
+
+// c06ReadTimeout: WithReadTimeout(rt); the first request's handler takes longer than that; two more requests are sent
+// after it. Whichever of them are served: the k-th request that arrived carries Request.ID k.
+func c06ReadTimeout(rt int) string {
+	rc := &recorder{}
+	h := func(w *gldap.ResponseWriter, r *gldap.Request) {
+		rc.enter(r)
+		if r.VerifMessage().GetID() == 1000 {
+			time.Sleep(time.Duration(rt+200) * time.Millisecond)
+		}
+		answer(w, r)
+	}
+	sut, err := startServer(allRoutes(h, nil, nil), nil, nil, gldap.WithReadTimeout(time.Duration(rt)*time.Millisecond))
+	if err != nil {
+		return "harness-error start: " + err.Error()
+	}
+	defer sut.tr.ReleaseAll()
+	cl, err := connect(sut.addr, "plain")
+	if err != nil {
+		return "harness-error connect: " + err.Error()
+	}
+	defer cl.close()
+	_ = cl.send(opFrame("search", 1000))
+	time.Sleep(time.Duration(rt+300) * time.Millisecond)
+	_ = cl.send(append(opFrame("bind", 1001), opFrame("search", 1002)...))
+	time.Sleep(400 * time.Millisecond)
+	verdict := "ok"
+	rc.mu.Lock()
+	for _, e := range rc.entries {
+		if int64(e.reqID) != e.msgID-1000+1 {
+			verdict = fmt.Sprintf("conn %d: request #%d in arrival order has Request.ID %d (read timeout %d ms)", e.conn, e.msgID-1000+1, e.reqID, rt)
+		}
+	}
+	rc.mu.Unlock()
+	cl.close()
+	sut.finish()
+	return verdict + "\t" + traceString(sut.tr.Snapshot(), "conn.", "loop.", "req.", "run.", "stop.")
+}
+
+// c06LateRegistration: while the handler of a first request is blocked, the application registers one more route on
+// the live mux; a request sent after that - on the same and on another connection - must reach its handler although
+// the first one still blocks.
+func c06LateRegistration() string {
+	rc := &recorder{}
+	released := make(chan struct{})
+	first := make(chan struct{}, 1)
+	var started int32
+	h := func(w *gldap.ResponseWriter, r *gldap.Request) {
+		rc.enter(r)
+		if r.VerifMessage().GetID() == 1000 {
+			first <- struct{}{}
+			<-released
+		} else {
+			atomic.AddInt32(&started, 1)
+		}
+		answer(w, r)
+	}
+	mux := allRoutes(h, nil, nil)
+	sut, err := startServer(mux, nil, nil)
+	if err != nil {
+		return "harness-error start: " + err.Error()
+	}
+	defer sut.tr.ReleaseAll()
+	a, err := connect(sut.addr, "plain")
+	if err != nil {
+		return "harness-error connect: " + err.Error()
+	}
+	defer a.close()
+	b, err := connect(sut.addr, "plain")
+	if err != nil {
+		return "harness-error connect: " + err.Error()
+	}
+	defer b.close()
+	_ = a.send(opFrame("search", 1000))
+	select {
+	case <-first:
+	case <-time.After(5 * time.Second):
+		close(released)
+		return "harness-error first handler never started"
+	}
+	regDone := make(chan struct{})
+	go func() {
+		_ = mux.ExtendedOperation(func(w *gldap.ResponseWriter, r *gldap.Request) { answer(w, r) }, gldap.ExtendedOperationName("1.2.3.4.5.6"))
+		close(regDone)
+	}()
+	select {
+	case <-regDone:
+	case <-time.After(50 * time.Millisecond):
+	}
+	_ = a.send(opFrame("bind", 1001))
+	_ = b.send(opFrame("bind", 1001))
+	verdict := "ok"
+	deadline := time.Now().Add(5 * time.Second)
+	for atomic.LoadInt32(&started) < 2 && time.Now().Before(deadline) {
+		time.Sleep(time.Millisecond)
+	}
+	if n := atomic.LoadInt32(&started); n < 2 {
+		verdict = fmt.Sprintf("dispatch blocked: only %d of 2 requests sent after a route was registered reached their handler while an earlier handler blocks", n)
+	}
+	close(released)
+	time.Sleep(20 * time.Millisecond)
+	a.close()
+	b.close()
 	sut.finish()
 	return verdict + "\t" + traceString(sut.tr.Snapshot(), "conn.", "loop.", "req.", "run.", "stop.")
 }
